@@ -9,5 +9,6 @@ CONSTANTS
   LeakMemo = FALSE
   LeakCache = FALSE
   LeakOrder = FALSE
+  LeakScratch = FALSE
 INVARIANT Deterministic
 CHECK_DEADLOCK FALSE
